@@ -10,12 +10,26 @@ import "fmt"
 type field struct {
 	name       string
 	start, end int // [start,end) offsets inside the record
+	cs, ce     int // a length field counts the bytes [cs,ce) (0,0: not a length field, or fragmented)
+}
+
+// msgSpan is one handshake message inside a plaintext handshake record.
+type msgSpan struct {
+	name       string
+	typ        byte
+	hdr        int  // offset of the message header
+	body, end  int  // [body,end) = the message body as far as it lies in this record
+	whole      bool // the record holds the complete message (not a DTLCP fragment, not cut short)
+	cookieLen  int  // DTLCP ClientHello: length of its cookie (-1 otherwise)
+	firstField int  // index into fields of the message's first field
+	lastField  int  // one past its last field
 }
 
 type fieldMap struct {
 	rtype  string // hs ccs alert app enc
 	msg    string // ClientHello … (first message of the record) or the record type
 	fields []field
+	msgs   []msgSpan
 }
 
 var hsNames = map[byte]string{
@@ -38,21 +52,28 @@ type cursor struct {
 func (c *cursor) f(name string, n int) bool {
 	if n < 0 || c.pos+n > c.end {
 		if c.pos < c.end {
-			c.fm.fields = append(c.fm.fields, field{c.pfx + name + "(short)", c.pos, c.end})
+			c.fm.fields = append(c.fm.fields, field{name: c.pfx + name + "(short)", start: c.pos, end: c.end})
 			c.pos = c.end
 		}
 		return false
 	}
 	if n > 0 {
-		c.fm.fields = append(c.fm.fields, field{c.pfx + name, c.pos, c.pos + n})
+		c.fm.fields = append(c.fm.fields, field{name: c.pfx + name, start: c.pos, end: c.pos + n})
 	}
 	c.pos += n
 	return true
 }
 
+// cover marks the most recently added field as a length field counting [cs,ce).
+func (c *cursor) cover(cs, ce int) {
+	if n := len(c.fm.fields); n > 0 {
+		c.fm.fields[n-1].cs, c.fm.fields[n-1].ce = cs, ce
+	}
+}
+
 func (c *cursor) rest(name string) {
 	if c.pos < c.end {
-		c.fm.fields = append(c.fm.fields, field{c.pfx + name, c.pos, c.end})
+		c.fm.fields = append(c.fm.fields, field{name: c.pfx + name, start: c.pos, end: c.end})
 		c.pos = c.end
 	}
 }
@@ -78,7 +99,9 @@ func mapRecord(rec []byte, dtls, protected, ecdhe bool) *fieldMap {
 		c.f("record.epoch", 2)
 		c.f("record.seq", 6)
 	}
-	c.f("record.length", 2)
+	if c.f("record.length", 2) && len(rec) >= hl {
+		c.cover(hl, hl+be(rec[hl-2:hl]))
+	}
 	if len(rec) < hl {
 		fm.rtype, fm.msg = "short", "record"
 		return fm
@@ -129,22 +152,46 @@ func mapRecord(rec []byte, dtls, protected, ecdhe bool) *fieldMap {
 			}
 			c.pfx = name + "."
 			blen := be(rec[c.pos+1 : c.pos+4])
+			ms := msgSpan{name: name, typ: t, hdr: c.pos, cookieLen: -1, firstField: len(fm.fields)}
+			mh := 4
+			if dtls {
+				mh = 12
+			}
+			whole := c.pos+mh+blen <= c.end
+			if dtls && c.pos+12 <= c.end {
+				whole = whole && be(rec[c.pos+6:c.pos+9]) == 0 && be(rec[c.pos+9:c.pos+12]) == blen
+			}
 			c.f("type", 1)
 			c.f("length", 3)
+			if whole {
+				c.cover(ms.hdr+mh, ms.hdr+mh+blen)
+			}
 			if dtls {
 				c.f("message_seq", 2)
 				c.f("fragment_offset", 3)
 				c.f("fragment_length", 3)
+				if whole {
+					c.cover(ms.hdr+mh, ms.hdr+mh+blen)
+				}
 			}
 			bend := c.pos + blen
 			if bend > c.end {
 				bend = c.end
+			}
+			ms.body, ms.end, ms.whole = c.pos, bend, whole
+			if dtls && t == 1 && whole && ms.body+35 <= bend {
+				sl := int(rec[ms.body+34])
+				if ms.body+35+sl < bend {
+					ms.cookieLen = int(rec[ms.body+35+sl])
+				}
 			}
 			outer := c.end
 			c.end = bend
 			mapBody(c, t, rec, dtls, ecdhe)
 			c.rest("body")
 			c.end = outer
+			ms.lastField = len(fm.fields)
+			fm.msgs = append(fm.msgs, ms)
 		}
 	default:
 		c.rest("payload")
@@ -160,6 +207,9 @@ func mapBody(c *cursor, t byte, rec []byte, dtls, ecdhe bool) {
 		}
 		n := be(rec[c.pos : c.pos+lb])
 		c.f(name+"_length", lb)
+		if c.pos+n <= c.end {
+			c.cover(c.pos, c.pos+n)
+		}
 		return c.f(name, n)
 	}
 	exts := func() {
@@ -170,13 +220,20 @@ func mapBody(c *cursor, t byte, rec []byte, dtls, ecdhe bool) {
 			c.rest("extensions_length(short)")
 			return
 		}
+		xl := be(rec[c.pos : c.pos+2])
 		c.f("extensions_length", 2)
+		if c.pos+xl <= c.end {
+			c.cover(c.pos, c.pos+xl)
+		}
 		for c.pos+4 <= c.end {
 			et := be(rec[c.pos : c.pos+2])
 			el := be(rec[c.pos+2 : c.pos+4])
 			n := fmt.Sprintf("ext%d", et)
 			c.f(n+".type", 2)
 			c.f(n+".length", 2)
+			if c.pos+el <= c.end {
+				c.cover(c.pos, c.pos+el)
+			}
 			if !c.f(n+".data", el) {
 				return
 			}
@@ -217,11 +274,18 @@ func mapBody(c *cursor, t byte, rec []byte, dtls, ecdhe bool) {
 		if c.pos+3 > c.end {
 			return
 		}
+		ll := be(rec[c.pos : c.pos+3])
 		c.f("list_length", 3)
+		if c.pos+ll <= c.end {
+			c.cover(c.pos, c.pos+ll)
+		}
 		i := 0
 		for c.pos+3 <= c.end {
 			n := be(rec[c.pos : c.pos+3])
 			c.f(fmt.Sprintf("cert%d_length", i), 3)
+			if c.pos+n <= c.end {
+				c.cover(c.pos, c.pos+n)
+			}
 			if !c.f(fmt.Sprintf("cert%d", i), n) {
 				return
 			}
